@@ -165,7 +165,32 @@ def lk_case(draw, tier):
         c["value"] = draw(st.sampled_from([None, hdr[-1], (hdr[-1], "k")]))
     if fn.endswith("one"):
         c["strict"] = draw(st.booleans())
+    # the documented dictionary= argument (any dict-like object, e.g. a shelve): the lookup is loaded into it
+    c["given_dict"] = draw(st.booleans())
     return c
+
+
+class _PlainMapping(object):
+    """A minimal dict-like object (like a shelve): only __contains__, __getitem__, __setitem__, items/keys."""
+
+    def __init__(self):
+        self._d = {}
+
+    def __contains__(self, k):
+        return k in self._d
+
+    def __getitem__(self, k):
+        import copy
+        return copy.copy(self._d[k])   # like a shelve: a fresh object on every read
+
+    def __setitem__(self, k, v):
+        self._d[k] = v
+
+    def items(self):
+        return self._d.items()
+
+    def keys(self):
+        return self._d.keys()
 
 
 def check_lk(case, ctx):
@@ -202,8 +227,16 @@ def check_lk(case, ctx):
         kw["value"] = case["value"]
     if one:
         kw["strict"] = strict
+    given = None
+    if case.get("given_dict"):
+        given = _PlainMapping()
+        kw["dictionary"] = given
     try:
         got = getattr(etl, fn)(codec.snapshot(tbl), key, **kw)
+        if given is not None:
+            if got is not given:
+                return Fail(fn + "/dictionary-not-used", "the mapping passed as dictionary= was not the one returned")
+            got = dict(given.items())
     except DuplicateKeyError as ex:
         if one and strict and has_dup:
             return None   # which key the exception names is not part of the statement
